@@ -294,6 +294,13 @@ func (r *Rig) listen(ctx context.Context, _, _ string) (net.Listener, error) {
 	return l, nil
 }
 
+func (r *Rig) register(tc *tconn) {
+	r.mu.Lock()
+	defer r.mu.Unlock()
+	tc.id = len(r.conns)
+	r.conns = append(r.conns, tc)
+}
+
 func (r *Rig) track(c net.Conn) *tconn {
 	r.mu.Lock()
 	defer r.mu.Unlock()
@@ -317,18 +324,17 @@ func (r *Rig) PeerConnect(d time.Duration) *Peer {
 	}
 	n, p := r.nextPlan()
 	a, b := net.Pipe()
-	tc := r.track(a)
+	tc := &tconn{Conn: a}
 	select {
-	case l.conns <- tc:
+	case l.conns <- tc: // handed to the library: from here on it must see Close()
+		r.register(tc)
 	case <-l.done:
 		_ = a.Close()
 		_ = b.Close()
-		tc.closed.Store(true) // never handed to the library
 		return nil
 	case <-time.After(d):
 		_ = a.Close()
 		_ = b.Close()
-		tc.closed.Store(true)
 		return nil
 	}
 	return r.attach(b, n, p, tc.id)
@@ -633,7 +639,9 @@ func (p *Peer) Selected() bool {
 // ---------------------------------------------------------------------------------------------
 // API calls with overlap bookkeeping
 
-func (r *Rig) begin(blocking bool) *callRec {
+// begin registers an Open/Close call and logs its call event in the same critical section, so the
+// order of call boundaries in the log is the order the overlap bookkeeping saw.
+func (r *Rig) begin(blocking bool, kind string) *callRec {
 	r.callMu.Lock()
 	defer r.callMu.Unlock()
 	r.callSeq++
@@ -643,14 +651,31 @@ func (r *Rig) begin(blocking bool) *callRec {
 		c.overlapped = true
 	}
 	r.inflight[c.id] = c
+	r.add(Ev{K: kind, ID: c.id})
 	return c
 }
 
-func (r *Rig) end(c *callRec) (solo bool, seqAtEnd int64) {
+// end unregisters the call and logs its return event (built by mk from the solo flag) atomically
+// with that; it returns the index of the logged entry so a Close can fill in its hygiene numbers.
+func (r *Rig) end(c *callRec, mk func(solo bool) Ev) (solo bool, seqAtEnd int64, logSeq int64) {
 	r.callMu.Lock()
 	defer r.callMu.Unlock()
 	delete(r.inflight, c.id)
-	return !c.overlapped, r.callSeq
+	solo = !c.overlapped
+	logSeq = r.add(mk(solo))
+	return solo, r.callSeq, logSeq
+}
+
+// patch rewrites a logged entry (a Close return whose hygiene snapshot is taken after the fact).
+func (r *Rig) patch(logSeq int64, f func(e *Ev)) {
+	r.mu.Lock()
+	defer r.mu.Unlock()
+	for i := range r.Log {
+		if r.Log[i].Seq == logSeq {
+			f(&r.Log[i])
+			return
+		}
+	}
 }
 
 // blockingOpenInFlight reports whether an Open(OpenWaitSelected) is currently inside the library.
@@ -693,8 +718,7 @@ type OpenRes struct {
 func (r *Rig) Open(wait bool, timeout time.Duration) (res OpenRes) {
 	r.gate.RLock()
 	defer r.gate.RUnlock()
-	c := r.begin(wait)
-	r.add(Ev{K: "OC", ID: c.id})
+	c := r.begin(wait, "OC")
 	mode := hsms.OpenBackground
 	if wait {
 		mode = hsms.OpenWaitSelected
@@ -714,11 +738,24 @@ func (r *Rig) Open(wait bool, timeout time.Duration) (res OpenRes) {
 	}()
 	res.Elapsed = time.Since(t0)
 	res.Class = ClassOpen(err)
+	// A context error can also come out of the synchronous dial inside tr.Start (the dialer's ctx is
+	// the generation ctx, possibly with the connect timeout): that is a START failure (rolled back),
+	// not a failed wait (lifecycle running). Only the caller's own ctx distinguishes them.
+	ambiguous := false
+	if res.Class == "ctx" {
+		switch {
+		case !wait || ctx.Err() == nil:
+			res.Class = "start"
+		default:
+			ambiguous = true // both the caller's ctx and a dial ctx may have expired: do not judge
+		}
+	}
 	if res.Panic != nil {
 		res.Class = "panic"
 	}
-	res.Solo, _ = r.end(c)
-	r.add(Ev{K: "OR", ID: c.id, Res: res.Class, Solo: res.Solo, N: [4]int64{int64(res.Elapsed)}})
+	res.Solo, _, _ = r.end(c, func(solo bool) Ev {
+		return Ev{K: "OR", ID: c.id, Res: res.Class, Solo: solo && !ambiguous, N: [4]int64{int64(res.Elapsed)}}
+	})
 	return res
 }
 
@@ -740,9 +777,8 @@ type CloseRes struct {
 // takes the hygiene snapshot (with the API gate held so nothing can start during the scan).
 func (r *Rig) Close() (res CloseRes) {
 	r.gate.RLock()
-	c := r.begin(false)
+	c := r.begin(false, "CC")
 	res.Blocked = r.blockingOpenInFlight()
-	r.add(Ev{K: "CC", ID: c.id})
 	t0 := time.Now()
 	var err error
 	func() {
@@ -767,7 +803,9 @@ func (r *Rig) Close() (res CloseRes) {
 	default:
 		res.Class = "other"
 	}
-	solo, seqAtEnd := r.end(c)
+	// the return is logged now (position = linearization order); calm and the hygiene numbers are
+	// filled in below if nothing else started in the meantime
+	solo, seqAtEnd, logSeq := r.end(c, func(bool) Ev { return Ev{K: "CR", ID: c.id, Res: res.Class} })
 	r.gate.RUnlock()
 	if solo && res.Class != "panic" {
 		r.gate.Lock()
@@ -782,21 +820,18 @@ func (r *Rig) Close() (res CloseRes) {
 				res.OpenConns = r.OpenHandles()
 				res.Loops = r.Conn.Metrics().Reconnecting()
 			}
+			sel := int64(0)
+			if res.State != hsms.NotConnectedState {
+				sel = 1
+			}
+			r.patch(logSeq, func(e *Ev) {
+				e.Solo = true
+				e.N = [4]int64{int64(res.Goroutines), int64(res.OpenConns), res.Loops, sel}
+			})
 		}
-		r.addCR(c.id, res)
 		r.gate.Unlock()
-		return res
 	}
-	r.addCR(c.id, res)
 	return res
-}
-
-func (r *Rig) addCR(id int64, res CloseRes) {
-	sel := int64(0)
-	if res.State != hsms.NotConnectedState {
-		sel = 1
-	}
-	r.add(Ev{K: "CR", ID: id, Res: res.Class, Solo: res.Calm, N: [4]int64{int64(res.Goroutines), int64(res.OpenConns), res.Loops, sel}})
 }
 
 // settle waits (up to d) for the library goroutine count to reach zero and returns the last count.
